@@ -27,15 +27,17 @@ def compare(vec: Dict[str, Any], obs: Dict[str, Any]) -> Outcome:
         return _history(vec, obs)
     if vec["kind"] == "rows":
         oc = Outcome()
+        if "nonframe" in obs and obs["nonframe"] not in vec.get("nonframe", ["TypeError"]):
+            oc.mismatches.append("%s: validate(<a list>) raised %s, documented %s" % (vec["backend"], obs["nonframe"], vec.get("nonframe")))
         for tag in ("kind", "lazy_kind"):
             k = obs.get(tag, "")
             if k.startswith("Leak:"):
                 joint_lazy = (vec["backend"] == "polars" and tag == "lazy_kind" and k == "Leak:NotImplementedError"
                               and vec["schema"]["joint"] != "no")
                 if joint_lazy:
-                    oc.known = ["PolarsLazyJointUniqueNotImplemented"]
+                    oc.known = oc.known + ["PolarsLazyJointUniqueNotImplemented"]
                 elif tag == "kind" and "DropEvalsMultiIndexLabels" in (vec.get("devs") or []) and k == vec.get("asis"):
-                    oc.known = ["DropEvalsMultiIndexLabels"]
+                    oc.known = oc.known + ["DropEvalsMultiIndexLabels"]
                 else:
                     oc.mismatches.append("%s %s (%s): an internal exception escaped validate: %s %s"
                                          % (vec["backend"], vec["mode"], "lazy" if tag == "lazy_kind" or vec["mode"] == "drop" else "eager",
